@@ -14,7 +14,7 @@ import (
 
 func travRules() []*Rule {
 	return []*Rule{
-		{ID: "TRAV", Props: []string{"C01", "C02", "C04", "C13", "C03"}, Min: 19,
+		{ID: "TRAV", Props: []string{"C01", "C02", "C04", "C13", "C03", "C12"}, Min: 19,
 			Doc: "b-tree traversal shape: every iteration method ranges over all cells (or the tail found by the binary search), visits left child → (index interior: the cell's own entry) in that order for every cell with no cell skipped, then the right-most child; leaves emit every visited cell; the rowid leaf search delivers only the first qualifying cell",
 			Run: runTrav},
 		{ID: "TRAV-flag", Props: []string{"C13", "C02", "C03"}, Min: 2,
@@ -636,7 +636,15 @@ func runSrch(c *Ctx) {
 		paths, _ := EnumLits(fn.Blocks[0], 0, TabOpts{Termer: t, EventOf: callEvents(p)})
 		checked := false
 		for _, lp := range paths {
-			if lp.Exit == nil || !cleanPath(lp) || eventIndex(lp, "call", "db.tableBtree.IterMin") < 0 {
+			if lp.Exit == nil || !cleanPath(lp) {
+				continue
+			}
+			if eventIndex(lp, "call", "db.tableBtree.IterMin") < 0 {
+				// "no such row" without having searched the tree (say, for rowids "that cannot exist")
+				if isNilConst(lp.PS.Resolve(lp.Exit.Results[0])) && isNilConst(lp.PS.Resolve(lp.Exit.Results[1])) {
+					c.Fail("Table.Rowid absent", lp.Exit.Pos(), "`row absent` (nil, nil) is returned on path [%s] without searching the table: every int64 is a possible rowid (negative and zero ones included)", pathDesc(lp))
+					checked = true
+				}
 				continue
 			}
 			r0, r1 := lp.PS.Resolve(lp.Exit.Results[0]), lp.PS.Resolve(lp.Exit.Results[1])
